@@ -126,13 +126,13 @@ def run(chk):
                     v, d = UNDECIDED, ex.cause
                 chk.add("C14.M", key, v, d, where=where_of(bd), sample=dict(obligation=key, verdict=v) if (La, Lb) == (2, 2) else None)
     # ------------------------------------------------------------------ C14.S simplification
-    for L in (0, 1, 2, 3):
-        key = "Sop simplification of %d cubes" % L
+    for names in [["c%d" % j for j in range(L)] for L in (0, 1, 2, 3)] + [["c0", "c0"], ["c0", "c1", "c0"], ["c1", "c0", "c1", "c0"]]:
+        L = len(names)
+        key = "Sop simplification of %d cubes" % L if len(set(names)) == L else "Sop simplification of repeated cubes %s" % names
         try:
             it = Interp(facts, max_paths=8192)
             install_stubs(it, facts, C.elem)
             st = State()
-            names = ["c%d" % j for j in range(L)]
             v0 = C.mk(st, 4, names)
             p = new_cell()
             st.mem[p] = v0
@@ -150,10 +150,10 @@ def run(chk):
                 nret += 1
                 kept = [elem_name(c) for c in C.cubes(it, o.state, it.read_ptr(o.state, Ptr(p, ())))]
                 z = {nm: w_.get("is_zero(%s)" % nm, 0) for nm in names}
-                alive = [nm for nm in names if not z[nm]]
+                alive = sorted({nm for nm in names if not z[nm]})
                 imp = lambda x, y: w_.get("implies(%s,%s)" % (x, y), 0)
                 want = [x for x in alive if not any(y != x and imp(x, y) for y in alive)]
-                if kept != want:
+                if sorted(kept) != want:
                     # which clause is violated?
                     why = "keeps %s, expected %s when zero cubes are %s and implications are %s" % (kept, want, [n_ for n_ in names if z[n_]], [k for k, val in w_.items() if k.startswith("implies") and val])
                     v, d = REFUTED, why
